@@ -14,6 +14,9 @@ def run(rep: Report, repo: Repo, tier: str) -> None:
     rule_consumption(rep, repo, "C02-R2")
     misc_rules.rule_document_order(rep, repo, "C02-R3")
     render.rule_kind_rendering(rep, repo, "C02-R4")
+    from . import bindings, writer_rules
+    bindings.rule_generic_binding(rep, repo, "C02-R6")
+    writer_rules.rule_values_verbatim(rep, repo, "C02-R7")
     atn_rules.rule_file_grammar(rep, repo, "C02-R5")
     if tier == "thorough":
         from . import trace_rules
